@@ -409,6 +409,20 @@ func (P *Program) EntryGuards(fn *ssa.Function) []Lit {
 			out = append(out, P.BlockGuards(mc.Block())...)
 			out = append(out, P.EntryGuards(fn.Parent())...)
 		}
+		// a function literal that is called directly from product code additionally has its call sites' guards
+		if callers := P.Callers(fn); len(callers) > 0 {
+			var inter []Lit
+			for i, c := range callers {
+				cg := append([]Lit{}, P.BlockGuards(c.Block())...)
+				cg = append(cg, P.EntryGuards(c.Parent())...)
+				if i == 0 {
+					inter = cg
+				} else {
+					inter = intersectLits(inter, cg)
+				}
+			}
+			out = append(out, inter...)
+		}
 	} else {
 		callers := P.Callers(fn)
 		first := true
@@ -597,7 +611,7 @@ func (P *Program) litHelperCall(l Lit) (*ssa.Call, int) {
 	default:
 		return nil, 0
 	}
-	callee := call.Call.StaticCallee()
+	callee := P.Callee(&call.Call)
 	if callee == nil || !P.IsProductFunc(callee) || len(callee.Blocks) == 0 {
 		return nil, 0
 	}
@@ -620,7 +634,7 @@ func (P *Program) Expand(lits []Lit) []Lit {
 		if call == nil {
 			continue
 		}
-		callee := call.Call.StaticCallee()
+		callee := P.Callee(&call.Call)
 		if P.isAnchor(callee) {
 			continue // anchors (containers, configuration, ...) are judged by their own rules, not looked into
 		}
@@ -691,7 +705,7 @@ func (P *Program) GuardPaths(ins ssa.Instruction) [][]Lit {
 		}
 		onPath[fn] = true
 		defer delete(onPath, fn)
-		if fn.Parent() != nil {
+		if fn.Parent() != nil && len(P.Callers(fn)) == 0 {
 			if mc := P.closureSite(fn); mc != nil {
 				a2 := acc.union(newLitSet(P.BlockGuards(mc.Block())))
 				walk(fn.Parent(), a2, onPath)
